@@ -107,6 +107,41 @@ def run(ctx):
         good = len(oks) == 1 and norm(D.show(oks[0].ret)) == "Result::Ok((k, TryInto::try_into(v).Ok.0))" and \
             all(norm(D.show(p.ret)).startswith("Result::Err(TryInto::try_into(v).Err.0") for p in cps if p.kind == "ret" and U.is_err(p.ret))
     ctx.check(good, "C01.numbers", "C01.numbers:object-members", w.where(f), bad_msg="object members are not (same key, fallibly converted value)")
+    # try_from_json_map is the second way into canonical values (serde_json::Map -> CanonicalJsonObject): it must convert every member with the
+    # same fallible conversion and fail on the first error - an entry that cannot be represented is never dropped
+    fm = w.fn("ruma_common::canonical_json::try_from_json_map")
+    mps = dex.paths(fm, [D.sym("json")])
+    CONV = r"(?:TryInto::try_into|TryFrom::try_from|(?:\w+::)*try_from)"
+    good_m, why_m = bool(mps), ""
+    for p in mps:
+        if p.kind != "ret":
+            good_m, why_m = False, f"{p.kind} path"
+            break
+        r = D.show(p.ret)
+        m_ = re.fullmatch(r"(?:Result::Ok\()?Iterator::collect\(Iterator::map\(IntoIterator::into_iter\(json\), closure\[([^\]]+)\](?:\{.*\})?\)\)(?:\.Ok\.0\))?", r)
+        if m_:
+            cps = dex.paths(w.fn(m_.group(1)), [D.sym("env"), ("tup", (D.sym("k"), D.sym("v")))])
+            oks = [q for q in cps if q.kind == "ret" and U.is_ok(q.ret)]
+            ok_c = len(oks) == 1 and re.fullmatch(r"Result::Ok\(\(k, " + CONV + r"\(v\)\.Ok\.0\)\)", D.show(oks[0].ret)) is not None and \
+                all(q.kind == "ret" and (U.is_ok(q.ret) or re.match(r"Result::Err\(.*" + CONV + r"\(v\)\.Err\.0", D.show(q.ret))) for q in cps)
+            if not ok_c:
+                good_m, why_m = False, f"member closure returns {[D.show(q.ret)[:80] for q in cps]}"
+            continue
+        if U.is_err(p.ret) and re.search(CONV + r"\(.*\)\.Err\.0", r):
+            continue                                   # propagated conversion error (`?` / loop form)
+        if re.search(CONV + r"\((?:Value|JsonValue)::Object\(json\)\)", r):
+            continue                                   # delegates to TryFrom<Value> (checked above)
+        tv = U.true_variants(p)
+        elems = sorted(k_ + ".Some.0" for k_, v_ in tv.items() if re.match(r"^Iterator::next\(IntoIterator::into_iter\(json\)\)", k_) and v_ == "Some")
+        ins = [U.shows(e[1]) for e in p.effects if e[0].rsplit("::", 1)[-1] == "insert" and len(e[1]) == 3]
+        loop_ok = U.is_ok(p.ret) and re.fullmatch(r"Result::Ok\((?:BTreeMap::new\(\)|Default::default\(\)|BTreeMap::default\(\))\)", r) is not None and \
+            len(ins) == len(elems) and all(
+            any(a_[1] == f"{el}.0" and re.fullmatch(CONV + r"\(" + re.escape(el) + r"\.1\)\.Ok\.0", a_[2]) for a_ in ins) for el in elems) and \
+            not any(v_ == "Err" and re.match(CONV, k_) for k_, v_ in tv.items())
+        if not loop_ok:
+            good_m, why_m = False, f"result {r[:160]}"
+    ctx.check(good_m, "C01.numbers", "C01.numbers:json-map-members", w.where(fm),
+              bad_msg=f"try_from_json_map does not convert every member fallibly and fail on the first error ({why_m}): a member that cannot be represented is dropped or altered")
     # Deserialize goes through the same conversion
     fde = w.fn(f"<{V} as serde_core::de::Deserialize<'de>>::deserialize")
     pde = [p for p in dex.paths(fde, [D.sym("de")]) if p.kind == "ret" and U.is_ok(p.ret)]
